@@ -15,7 +15,7 @@ SPEC = {
     "driver": "drv_c07",
     "harness": "c07",
     "theorems": ["C07_strictly_increasing", "C07_release_wastes_none", "C07_crash_wastes_le_interval",
-                 "C07_next_returns_frontier", "C07_budget_step", "C07_store_error_harmless", "C07_skeleton_next", "C07_skeleton_release", "C07_skeleton_update", "C07_skeleton_type_sequence",
+                 "C07_next_returns_frontier", "C07_no_wrap", "C07_exhausted_harmless", "C07_lease_spec", "C07_old_update_wrap_witness", "C07_budget_step", "C07_store_error_harmless", "C07_skeleton_next", "C07_skeleton_release", "C07_skeleton_update", "C07_skeleton_type_sequence",
                  # protocol level: concurrent callers on one object (Hive/Props/C07b.lean, model Hive/Model/SeqConc.lean)
                  "C07_concurrent_mutual_exclusion", "C07_concurrent_refines_sequential", "C07_concurrent_answers_are_sequential", "C07_concurrent_strictly_increasing",
                  "C07_concurrent_no_number_twice", "C07_concurrent_crash_wastes_le_interval", "C07_concurrent_crash_step",
@@ -24,13 +24,14 @@ SPEC = {
                      "hand-written protocol model Hive/Model/SeqConc.lean (micro-steps of Next/update/Release under seq.Mutex), tied by the regenerated lock/store-call skeletons and by recorded concurrent histories judged with the theorems' trace predicate ('chist' requests)",
                      "Go toolchain, compiled Lean driver"],
     "modelled": ["kvstore.Sequence Next/Release/update/NewSequence as micro-steps over one stored mark",
-                 "uint64 wrap-around at 2^64 is NOT modelled (Nat)", "store faults other than crashes are not modelled",
+                 "uint64 range: numbers are Nat in the model; update's lease is cut off at cap = 2^64-1 and exhaustion is an error, and C07_no_wrap proves that no value of the model exceeds cap, so Nat and uint64 arithmetic coincide (field types pinned by C07_skeleton_type_sequence)",
+                 "store faults: an I/O error of the store read or write of a call (failNext/failRelease); other faults are not modelled",
                  "sequential model: the object mutex is modelled as atomicity of Next; concurrent Next is validated by the 'par' requests",
                  "protocol model: any number of goroutines with arbitrary scripts of Next/Release on one object, every method cut into the code's shared-memory micro-steps (Lock, lease test, store.Get, seq.next = num, store.Set, seq.reserved = reserved, val := next; next++, deferred Unlock; store calls may fail), crash at ANY micro-step + restart with a fresh object used by fresh goroutines",
                  "Go memory model / data races are not modelled: the protocol model is sequentially consistent (justified by C07_concurrent_mutual_exclusion: every access to next/reserved/store happens under seq.Mutex)"],
     "manifest": {
-        "text": "Theorems over every history of restart/Next/Release/crash-at-each-store-boundary with any positive interval: numbers handed out are strictly increasing (C07_strictly_increasing), a crash wastes at most the abandoned object's interval (C07_crash_wastes_le_interval, C07_budget_step), a clean Release wastes none (C07_release_wastes_none). Protocol level (Hive/Props/C07b.lean over the interleaving model Hive/Model/SeqConc.lean: any number of goroutines, arbitrary scripts of Next/Release on ONE object, the code's micro-steps, store errors, crash at any micro-step + restart; every reachable configuration = every schedule): at most one goroutine is between Lock and Unlock and only the holder touches next/reserved/the store (C07_concurrent_mutual_exclusion); the history of linearised calls, crashes and restarts is a run of the sequential machine and every returned answer is the sequential one (C07_concurrent_refines_sequential); the ghost log of (goroutine, number) hand-outs is strictly increasing, so no number is returned twice to anybody (C07_concurrent_strictly_increasing, C07_concurrent_no_number_twice); waste bounds lifted (C07_concurrent_crash_wastes_le_interval, C07_concurrent_crash_step: a crash at any micro-step wastes at most the abandoned interval; C07_concurrent_release_wastes_none); without crash/store error the numbers are exactly the consecutive ones from the frontier (C07_concurrent_contiguous). The hand-written model is re-validated against the working tree on every run by a line-by-line differential run (real kvstore.Sequence over mapdb with a store wrapper that crashes after the k-th store call) and an independent in-Go property oracle; the protocol model is tied by the regenerated lock/store-call skeletons (C07_skeleton_*, C07_concurrent_skeleton) and by 'chist' requests (recorded histories of goroutines calling Next while another keeps calling Release, then abandon + restart) that the Lean driver judges with the trace predicate of the C07_concurrent_* theorems.",
-        "note": "Trusted: Lean kernel; model Hive/Model/Seq.lean (tie = differential execution, random histories); uint64 wrap-around and store I/O errors not modelled; mutex atomicity of Next assumed in the sequential model, proved for the protocol model Hive/Model/SeqConc.lean (sequentially consistent interleavings; tie = skeletons + recorded concurrent histories) and sampled by concurrent 'par' / 'parrel' / 'chist' requests.",
+        "text": "Theorems over every history of restart/Next/Release/crash-at-each-store-boundary with any positive interval: numbers handed out are strictly increasing (C07_strictly_increasing), a crash wastes at most the abandoned object's interval (C07_crash_wastes_le_interval, C07_budget_step), a clean Release wastes none (C07_release_wastes_none); no value ever exceeds 2^64-1, so the uint64 arithmetic of the code never wraps, and at the end of the number space Next reports exhaustion, hands out nothing and writes nothing (C07_no_wrap, C07_lease_spec, C07_exhausted_harmless; C07_old_update_wrap_witness: the unrepaired update reused numbers through wrap-around). Protocol level (Hive/Props/C07b.lean over the interleaving model Hive/Model/SeqConc.lean: any number of goroutines, arbitrary scripts of Next/Release on ONE object, the code's micro-steps, store errors, crash at any micro-step + restart; every reachable configuration = every schedule): at most one goroutine is between Lock and Unlock and only the holder touches next/reserved/the store (C07_concurrent_mutual_exclusion); the history of linearised calls, crashes and restarts is a run of the sequential machine and every returned answer is the sequential one (C07_concurrent_refines_sequential); the ghost log of (goroutine, number) hand-outs is strictly increasing, so no number is returned twice to anybody (C07_concurrent_strictly_increasing, C07_concurrent_no_number_twice); waste bounds lifted (C07_concurrent_crash_wastes_le_interval, C07_concurrent_crash_step: a crash at any micro-step wastes at most the abandoned interval; C07_concurrent_release_wastes_none); without crash/store error the numbers are exactly the consecutive ones from the frontier (C07_concurrent_contiguous). The hand-written model is re-validated against the working tree on every run by a line-by-line differential run (real kvstore.Sequence over mapdb with a store wrapper that crashes after the k-th store call) and an independent in-Go property oracle; the protocol model is tied by the regenerated lock/store-call skeletons (C07_skeleton_*, C07_concurrent_skeleton) and by 'chist' requests (recorded histories of goroutines calling Next while another keeps calling Release, then abandon + restart) that the Lean driver judges with the trace predicate of the C07_concurrent_* theorems.",
+        "note": "Trusted: Lean kernel; model Hive/Model/Seq.lean (tie = differential execution, random histories); mutex atomicity of Next assumed in the sequential model, proved for the protocol model Hive/Model/SeqConc.lean (sequentially consistent interleavings; tie = skeletons + recorded concurrent histories) and sampled by concurrent 'par' / 'parrel' / 'chist' requests.",
         "technique": "Lean 4 invariant proof by induction over operation histories + invariant / refinement proof over all interleavings of a micro-step protocol model + differential correspondence",
     },
     "assumptions": ["one live Sequence object per key at a time; an abandoned object is never used again"],
